@@ -100,6 +100,56 @@ let obs_eval (text : z list) (off : z) (hosts : ostring) (data : ostring) : ostr
     obs_state out st
   | _ -> "parse-error"
 
+let obs_field_list (l : z list list option) : ostring =
+  match l with
+  | None -> "E"
+  | Some fs ->
+    let hs = List.sort compare (List.map (fun f -> if f = [] then "-" else hex_of_bytes f) fs) in
+    "F" ^ String.concat "," hs
+
+let obs_fields (text : z list) : ostring =
+  match parse_source text with
+  | Accepted e -> let x = strip e in obs_field_list (fields_of x) ^ "|" ^ obs_field_list (fields_not_local x)
+  | _ -> "parse-error"
+
+let split_on (c : char) (s : ostring) : ostring list = String.split_on_char c s
+
+let split_first (c : char) (s : ostring) : ostring * ostring =
+  let i = String.index s c in (String.sub s 0 i, String.sub s (i + 1) (String.length s - i - 1))
+
+let obs_history (hosts : ostring) (maps : ostring) (ops : ostring) : ostring =
+  let hs = hosts_of_spec hosts in
+  let heap =
+    if maps = "-" then [] else
+      List.map (fun m -> let (id, w) = split_first '=' m in
+                 (z_of_dec id, (match value_of_wire w with VMap kv -> kv | _ -> []))) (split_on '~' maps) in
+  let parse_errors = ref [] in
+  let op_of (i : int) (o : ostring) : rop =
+    let body = String.sub o 1 (String.length o - 1) in
+    match o.[0] with
+    | 'T' -> if o = "Tn" then OpSetThis None else OpSetThis (Some (z_of_dec body))
+    | 'V' -> let (k, w) = split_first '=' body in OpSetThisValue (bytes_of_hex k, value_of_wire w)
+    | 'S' -> let (k, w) = split_first '=' body in OpSet (bytes_of_hex k, value_of_wire w)
+    | 'G' -> OpGet (bytes_of_hex body)
+    | 'W' -> let (id, kw) = split_first ':' body in let (k, w) = split_first '=' kw in
+      OpCallerWrite (z_of_dec id, bytes_of_hex k, value_of_wire w)
+    | 'R' -> (match parse_source (bytes_of_hex body) with
+        | Accepted e -> OpResolve (strip e)
+        | _ -> parse_errors := i :: !parse_errors; OpGet [])
+    | _ -> failwith "op" in
+  let opl = List.mapi op_of (split_on '~' ops) in
+  let obs = rrun hs Z0 (new_runner heap) opl in
+  let out = ref [] in
+  List.iteri (fun i ob ->
+      if List.mem i !parse_errors then out := "parse-error" :: !out
+      else match ob with
+        | ObsNone -> ()
+        | ObsValue (Ok v) -> out := ("V " ^ wire_of_value v) :: !out
+        | ObsValue Unk -> out := "U" :: !out
+        | ObsValue _ -> out := "E" :: !out
+        | ObsGet v -> out := ("G " ^ wire_of_value v) :: !out) obs;
+  String.concat ";" (List.rev !out)
+
 let run_case (fields : ostring list) : ostring =
   match fields with
   | ["LC"; text; off] ->
@@ -112,6 +162,8 @@ let run_case (fields : ostring list) : ostring =
   | ["PA"; text] -> obs_parse (bytes_of_hex text)
   | ["EV"; text; off; hosts; data] -> obs_eval (bytes_of_hex text) (z_of_dec off) hosts data
   | "NOP" :: _ -> "-"
+  | ["RH"; hosts; maps; ops] -> obs_history hosts maps ops
+  | ["FD"; text] -> obs_fields (bytes_of_hex text)
   | cmd :: _ -> "unknown-command:" ^ cmd
   | [] -> "empty"
 
